@@ -2050,7 +2050,7 @@ def pointer_containers(rng):
     return cases
 
 
-F32_RANGE_ON_TEXT = [False]     # set by regen(): float32 fields read from strings are range-checked on the text (F32)
+F32_RANGE_ON_TEXT = [False]     # set by regen(): float32 fields read from strings are range-checked on the text (F33)
 DECIMAL_BOUNDS = ["0.1", "0.3", "2.7", "0.7", "1.1", "0.2", "-0.1", "-2.7", "100.01", "1e-7", "0.30000000000000004", "1e23",
                   "0.5", "3", "16777217", "9007199254740993"]
 
@@ -2124,9 +2124,7 @@ def decimal_bounds(rng):
                             else ("float64" if n % 3 else "float32")
                         strsrc = src in ("form", "path", "header", "httpx-form", "json-string")
                         if kind == "float32":
-                            if strsrc and not F32_RANGE_ON_TEXT[0]:
-                                kind = "float64"
-                            elif len(Decimal(v).normalize().as_tuple().digits) > 6:
+                            if len(Decimal(v).normalize().as_tuple().digits) > 6:
                                 kind = "float64"        # the stored float32 would not print back as the literal
                         if kind in BITS and (not (-2 ** 63 <= int(v) < 2 ** 63) or (kind in UINT_KINDS and int(v) < 0) or
                                              (kind == "int8" and not -128 <= int(v) < 128)):
